@@ -86,17 +86,17 @@ PROPS = {
         "explanation": "RFC 1071 checksum algebra and IPv4 header emit/verify",
     },
     "C14": {
-        "units": ["dhcp"],
+        "units": ["dhcp", "dns"],
         "kani": [K_IPV4HDR, K_UDPHDR, K_TCPHDR, K_ARP],
         "level": "proof",
         "technique": "Kani full-domain harnesses on the real fixed-size decoders (panic-freedom = every unwrap/index/arith check CBMC generates); Verus on the extracted DHCP decoder and BytesExt readers over an arbitrary byte iterator",
         "level_text": "Decoder clause: for every byte string (all lengths 0..=N+4 of symbolic bytes, symbolic packet_len) the IPv4/UDP/TCP/ARP decoders return a value or an error - CBMC proves every panic site (unwrap, index, arithmetic overflow) unreachable; truncations are always rejected; accepted inputs re-encode without panic. DHCP: DhcpMessage::from_bytes and MessageType::try_from are verified by Verus for an arbitrary (unbounded) byte iterator: every unwrap / unreachable! / `?` is a discharged obligation, a truncated fixed part is rejected, the fixed fields sit at their offsets.",
-        "level_note": "Trusted: Kani/CBMC, Verus/Z3; vstd's prophetic iterator specification; String::from_utf8 assumed total; BytesExt::next_ipv4addr by assumed contract. NOT under contract: the DNS decoder (String/split based name handling). NOT decided: the NDL text parser (nom/&str: outside Verus, CBMC does not scale), and 'a frame that fails to decode is dropped at that layer' (demux glue over DashMap/Arc<dyn Protocol>/tokio).",
+        "level_note": "Trusted: Kani/CBMC, Verus/Z3; vstd's prophetic iterator specification; String::from_utf8 assumed total; BytesExt::next_ipv4addr by assumed contract. DNS: DnsMessage::from_bytes and DnsQuestion::query_name verified likewise (panic-freedom, header fields at their offsets, |rdata| == rdlength); DNS/DHCP encoders and their round trips are NOT under contract. NOT decided: the NDL text parser (nom/&str: outside Verus, CBMC does not scale), and 'a frame that fails to decode is dropped at that layer' (demux glue over DashMap/Arc<dyn Protocol>/tokio).",
         "assumptions": ["decoders read at most the fixed header from the iterator in the default feature set (accumulate_remainder is a no-op)"],
         "explanation": "decoder panic-freedom",
     },
     "C08": {
-        "units": ["dhcp"],
+        "units": ["dhcp", "dns"],
         "kani": [K_IPV4HDR, K_UDPHDR, K_TCPHDR, K_ARP],
         "level": "proof",
         "technique": "Kani full-domain harnesses (loop-free => complete) on the real codec functions: decode/re-encode, encode/decode, RFC wire layout",
